@@ -817,6 +817,18 @@ fn check_c16(seed: u64, tier: Tier, replay: Option<String>) -> i32 {
     if let Some((_, (h, ev))) = tres.first() {
         acc.samples.push(json!({"template_history_in_one_process": h.steps, "reported": ev.results}));
     }
+    // enumerated: a genuine template accepted first, then every entry point offered the same
+    // template with a flipped proof body, all inside one process
+    let mh: Vec<c17::BootHistory> = if quick { c17::template_memo_histories(0) } else { (0..3).flat_map(c17::template_memo_histories).collect() };
+    let mres = par_map(&mh, "c16m", 0, |sb, h| c17::run_boot_history(sb, &refs, h));
+    for (i, ev) in &mres {
+        // precondition: the first step (genuine set) is accepted
+        if ev.results.first().map(|r| r != "ok").unwrap_or(false) {
+            harness_error(&format!("{} rejected the genuine set as first step of a two-step history: {:?}", mh[*i].steps[0].loader, ev.results));
+        }
+        acc.add_history(Some(&mh[*i]), None, ev, &c16_class);
+    }
+    acc.samples.push(json!({"memo_history_in_one_process": mh.first().map(|h| &h.steps), "reported": mres.first().map(|(_, e)| e.results.clone())}));
     let n_bh: u64 = if quick { 3 } else { 600 };
     let bseeds: Vec<u64> = (0..n_bh).map(|i| mix(seed, 0x16B0_0000 + i)).collect();
     let bres = par_map(&bseeds, "c16b", if quick { 0 } else { qpz_core::budget_s(900) / 4 }, |sb, s| {
